@@ -139,6 +139,20 @@ func (P *Program) candidateNodePtr() types.Type {
 	return nil
 }
 
+// listPtr: the type *container/list.List as the loaded program sees it.
+func (P *Program) listPtr() types.Type {
+	for _, p := range P.pkgs {
+		if p.PkgPath == yqModule+"/pkg/yqlib" {
+			for _, imp := range p.Types.Imports() {
+				if imp.Path() == "container/list" {
+					return types.NewPointer(imp.Scope().Lookup("List").Type())
+				}
+			}
+		}
+	}
+	return nil
+}
+
 func (P *Program) specAccessor(name string) string {
 	if s, ok := P.specAcc[name]; ok {
 		return s
